@@ -182,6 +182,8 @@ func (it *Interp) eval(n *Node, ctx *execCtx) Value {
 		return it.evalSuperCall(n, ctx)
 	case KEval:
 		return it.evalEvalNode(n, ctx)
+	case KTagged:
+		return it.evalTagged(n, ctx)
 	}
 	panic(&abort{"unsupported expression " + n.K.String()})
 }
@@ -939,4 +941,53 @@ func (it *Interp) evalClassNamed(n *Node, ctx *execCtx, name string) Value {
 		classEnv.vars[n.S].initialize(F)
 	}
 	return F
+}
+
+// evalTagged: tagged template (13.3.11): tag reference and this value as for a call; the first argument is the
+// template object of the site (GetTemplateObject: created once per site, frozen, with a frozen raw array).
+func (it *Interp) evalTagged(n *Node, ctx *execCtx) Value {
+	var fv, this Value
+	this = Undefined
+	switch n.A.K {
+	case KIdent, KDot, KIndex, KSuperDot:
+		ref := it.evalRef(n.A, ctx)
+		fv = it.getValue(ref)
+		if ref.isProp {
+			this = ref.base
+			if ref.hasThis {
+				this = ref.thisValue
+			}
+		} else if !ref.unresolved && ref.env.kind == envObject && ref.env.withEnv {
+			this = ref.env.obj
+		}
+	default:
+		fv = it.eval(n.A, ctx)
+	}
+	key := tmplSite{n, it.epoch}
+	t := it.tmplSites[key]
+	if t == nil {
+		freeze := func(a *Object) {
+			for _, k := range a.keys {
+				p := a.props[k]
+				p.writable, p.configurable = false, false
+			}
+			a.ext = false
+		}
+		var cooked, raw []Value
+		for _, q := range n.Q {
+			cooked = append(cooked, q)
+			raw = append(raw, q)
+		}
+		rawArr := it.newArray(raw)
+		freeze(rawArr)
+		t = it.newArray(cooked)
+		it.defineOwn(t, strKey("raw"), dataDesc(rawArr, false, false, false))
+		freeze(t)
+		it.tmplSites[key] = t
+	}
+	args := []Value{t}
+	for _, e := range n.L {
+		args = append(args, it.eval(e, ctx))
+	}
+	return it.callValue(fv, this, args)
 }
